@@ -4,7 +4,7 @@
    Result of a modelled Go function: Ok v | OutOfFuel (the model's fuel did not
    suffice) | Panic (the Go code panics: index/slice out of range, failed assert). *)
 From PV Require Import Lib.Bytes Model.MkLexPrim Model.MkLexer Model.MkTokensLexer Model.MkLineSplit
-  Model.VaralignSplit Spec.MkPartition Proofs.MkLexPrim Proofs.MkLexer Proofs.MkLineSplit Proofs.VaralignSplit Proofs.Varassign.
+  Model.VaralignSplit Spec.MkPartition Proofs.MkLexPrim Proofs.MkLexer Proofs.MkLineSplit Proofs.VaralignSplit Proofs.Varassign Proofs.VarassignFull.
 Open Scope N_scope.
 
 (* ---------- mklexer.go ---------- *)
@@ -157,24 +157,35 @@ Print Assumptions C10mk_varalign_initial_total.
 
 (* ---------- a variable assignment's alignment prefix, value and comment ---------- *)
 
-(* The full statement: whenever matchVarassign accepts a (single raw) line, the
-   alignment prefix MkLine.ValueAlign() = leadingComment + varnameOp +
-   spaceBeforeValue of VaralignSplitter.split(raw, true), the value (re-escaped),
-   the space before the comment and the comment recombine to the line.
-   It is FALSE of the code: VaralignSplitter re-parses the raw text, matchVarassign
-   parses the unescaped text without the comment, and the two disagree. *)
-Definition C10mk_varassign_recombines_full : Prop :=
-  forall (text : str) (a : varassign), parse_varassign text = Ok (Some a) ->
+(* The full law: whenever matchVarassign accepts a (single raw) line without newline,
+   VaralignSplitter.split succeeds on it, and the alignment prefix MkLine.ValueAlign()
+   = leadingComment + varnameOp + spaceBeforeValue, the value (re-escaped: mid with
+   unescape_hash mid = value), the space before the comment and the comment (with its
+   '#') recombine to the line.  In particular MkLine.ValueAlign() cannot panic.
+   (False before VaralignSplitter.parseVarnameOp parsed the same text as matchVarassign:
+   `$\#=`, `${A:S,a,b}=v # ,}`.) *)
+Theorem C10mk_varassign_recombines : forall (text : str) (a : varassign),
+  ~ In 10 text -> parse_varassign text = Ok (Some a) ->
   exists (p : varalign_parts) (mid : str),
     varalign_split text true = Ok p /\
     text = (vp_leading_comment p ++ vp_varname_op p ++ vp_space_before_value p) ++ mid ++
            sr_space_before_comment (va_split a) ++ comment_tail (va_split a) /\
     unescape_hash mid = va_value a.
+Proof. exact varassign_recombines. Qed.
+Print Assumptions C10mk_varassign_recombines.
 
-(* witness: the line  $\#=  (the variable named `$#`) *)
-Theorem C10mk_varassign_recombines_refuted : ~ C10mk_varassign_recombines_full.
-Proof. exact varassign_recombines_refuted. Qed.
-Print Assumptions C10mk_varassign_recombines_refuted.
+(* the guard is needed only for texts that are no Line.Text: a newline inside the comment *)
+Example C10mk_varassign_newline_in_comment :
+  (exists a, parse_varassign [65; 61; 118; 32; 35; 10] = Ok (Some a)) /\
+  varalign_split [65; 61; 118; 32; 35; 10] true = Panic.
+Proof. split; [vm_compute; eexists; reflexivity|vm_compute; reflexivity]. Qed.
+
+(* the former witnesses *)
+Example C10mk_varassign_former_witnesses :
+  (exists p, varalign_split [36; 92; 35; 61] true = Ok p /\ vp_varname_op p = [36; 92; 35; 61]) /\
+  (exists p, varalign_split [36; 123; 65; 58; 83; 44; 97; 44; 98; 125; 61; 118; 32; 35; 32; 44; 125] true = Ok p /\
+             vp_varname_op p = [36; 123; 65; 58; 83; 44; 97; 44; 98; 125; 61] /\ vp_value p = [118; 32; 35; 32; 44; 125]).
+Proof. split; vm_compute; eexists; repeat split; reflexivity. Qed.
 
 (* What does hold for EVERY line that matchVarassign accepts (the part of the law
    that involves matchVarassign's own pieces): the line is [#] ++ pre ++ comment
